@@ -266,7 +266,7 @@ class PurityMonitor:
     def _state(self, slf, args, kwargs):
         items = []
         if slf is not None:
-            for attr in ("model", "data", "variables_", "state_names", "independencies"):
+            for attr in ("model", "data", "independencies"):
                 if hasattr(slf, attr):
                     items.append(("self." + attr, getattr(slf, attr)))
             import networkx as nx
